@@ -132,7 +132,7 @@ func genChain(r *rand.Rand, maxCmds int, wantLogic bool) []Unit {
 			}
 		}
 		stages := 1
-		if u.Join != "&&" && u.Join != "||" && r.Intn(3) == 0 {
+		if r.Intn(3) == 0 && (u.Join != "&&" && u.Join != "||" || r.Intn(2) == 0) {
 			stages = 2 + r.Intn(2)
 		}
 		used := false
@@ -159,6 +159,9 @@ type chainResult struct {
 	// Ran counts the commands that executed (used for non-triviality)
 	Ran     int `json:"ran"`
 	Skipped int `json:"skipped"`
+	// Ambiguous: a multi-stage pipeline was skipped as a whole; the statements
+	// do not say what its later stages do, so nothing is asserted
+	Ambiguous bool `json:"ambiguous,omitempty"`
 }
 
 func runPipeline(u Unit, out *chainResult) int {
@@ -190,6 +193,9 @@ func modelNormal(units []Unit) chainResult {
 		}
 		if skipped {
 			res.Skipped += len(u.Stages)
+			if len(u.Stages) > 1 {
+				res.Ambiguous = true
+			}
 			continue // exit number stays that of the predecessor
 		}
 		prev = runPipeline(u, &res)
@@ -210,6 +216,9 @@ func modelTry(units []Unit) chainResult {
 			if x == 0 && units[i].Join == "||" {
 				for i < len(units) && units[i].Join == "||" {
 					res.Skipped += len(units[i].Stages)
+					if len(units[i].Stages) > 1 {
+						res.Ambiguous = true
+					}
 					i++
 				}
 				continue
@@ -264,6 +273,9 @@ func modelTryPipe(units []Unit) chainResult {
 			if x == 0 && cmds[i].op == "||" {
 				for i < len(cmds) && cmds[i].op == "||" {
 					res.Skipped++
+					if cmds[i].pipeNext {
+						res.Ambiguous = true
+					}
 					i++
 				}
 				continue
